@@ -18,8 +18,9 @@ def judge_by_spec(ctx, recs, cases):
     judged = 0
     for key, items in groups.items():
         params, accounts = json.loads(key)
-        consts = dict(Accounts="{" + ", ".join('"%s"' % a for a in accounts) + "}", Th=params["Th"], Price=params["Price"],
-                      MinStep=params["MinStep"], InitBal=params["InitBal"])
+        tset = lambda xs: "{" + ", ".join('"%s"' % a for a in xs) + "}"
+        consts = dict(Accounts=tset(accounts), Th=params["Th"], Price=params["Price"], MinStep=params["MinStep"],
+                      InitBal=params["InitBal"], Rich=tset(params.get("Rich") or accounts), PoorBal=params.get("PoorBal", 0))
         data = "".join(json.dumps(x, sort_keys=True) + "\n" for x in items)
         r = ctx.tlc("exec", "Check_TxPool", "Check_TxPool.cfg", constants=consts, workers=1, count=False, timeout=900,
                     extra_files={"cands.ndjson": data}, label="spec verdict on %d real Candidate outputs" % len(items))
@@ -48,8 +49,8 @@ def judge_by_spec(ctx, recs, cases):
 
 
 def run(ctx):
-    gen = dict(Accounts='{"a", "b", "c"}', Values="{0, 1, 2, 3}", Limits="{0, 1, 2}", MaxTs=6, Th=3, Price=1, MinStep=1,
-               InitBal=5, MaxN=8, MaxPool=6)
+    gen = dict(Accounts='{"a", "b", "c"}', Values="{0, 1, 2, 3}", Limits="{0, 1, 2}", Sizes="{1, 3}", MaxTs=6, Th=3, Price=1, MinStep=1,
+               InitBal=5, Rich='{"a", "b", "c"}', PoorBal=0, MaxN=8, MaxPool=6)
     params = dict(Th=gen["Th"], Price=gen["Price"], MinStep=gen["MinStep"], InitBal=gen["InitBal"], MaxPool=gen["MaxPool"])
     if ctx.replay:
         d = json.load(open(ctx.replay))["detail"]
@@ -62,10 +63,14 @@ def run(ctx):
         return ctx.finish(rule="re-execution of one recorded behaviour")
     # 1. exhaustive: every pool built from <= MaxN transfers, every commit, every Candidate(bt, max)
     if not os.environ.get("VERIF_DEV_SKIP_MC"):
-        small = dict(Accounts='{"a", "b"}', Values="{0, 2}", Limits="{0, 1}", MaxTs=2, Th=1, Price=1, MinStep=1,
+        small = dict(Rich='{"a", "b"}', PoorBal=0, Accounts='{"a", "b"}', Values="{0, 2}", Limits="{0, 1}", MaxTs=2, Th=1, Price=1, MinStep=1,
                      InitBal=2, MaxN=2, MaxPool=2)
         r = ctx.model_check("exec", "MC_TxPool", "MC_TxPool.cfg", constants=small, coverage=True,
                             timeout=ctx.pick(600, 1500), label="2 transfers, all fields")
+        ctx.check_coverage(r, ["Add", "Commit", "Candidate", "DropOld"], allow_zero=("CheckTxs", "HasTx"))
+        sized = dict(small, Limits="{1}", Sizes="{1, 2}")
+        r = ctx.model_check("exec", "MC_TxPool", "MC_TxPool.cfg", constants=sized, coverage=True,
+                            timeout=ctx.pick(600, 1500), label="2 transfers of two sizes against every byte limit")
         ctx.check_coverage(r, ["Add", "Commit", "Candidate", "DropOld"], allow_zero=("CheckTxs", "HasTx"))
         mid = dict(small, Values="{2}", Limits="{1}", MaxTs=2, MaxN=3, MaxPool=3, InitBal=3)
         r = ctx.model_check("exec", "MC_TxPool", "MC_TxPool.cfg", constants=mid, coverage=True,
@@ -81,7 +86,7 @@ def run(ctx):
     depth = ctx.pick(16, 22)
     walks = ctx.behaviours("exec", "Gen_TxPool", "Gen_TxPool.cfg", constants=dict(gen, MaxOps=depth, Depth=depth),
                            simulate="num=%d" % ctx.pick(40, 500), depth=depth + 1, seed=ctx.seed, timeout=1500)
-    gen2 = dict(gen, Accounts='{"a", "b"}', Values="{1, 2}", Limits="{1}", MaxTs=4, Th=2, InitBal=4, MaxN=8, MaxPool=8)
+    gen2 = dict(gen, Rich='{"a", "b"}', Accounts='{"a", "b"}', Values="{1, 2}", Limits="{1}", MaxTs=4, Th=2, InitBal=4, MaxN=8, MaxPool=8)
     params2 = dict(Th=2, Price=1, MinStep=1, InitBal=4, MaxPool=8)
     walks2 = ctx.behaviours("exec", "Gen_TxPool", "Gen_TxPool.cfg", constants=dict(gen2, MaxOps=depth, Depth=depth),
                             simulate="num=%d" % ctx.pick(40, 500), depth=depth + 1, seed=ctx.seed + 100, timeout=1500)
@@ -89,7 +94,15 @@ def run(ctx):
     def spread(bs, n):
         return bs if len(bs) <= n else [bs[(i * len(bs)) // n] for i in range(n)]
     walks, walks2 = spread(walks, ctx.pick(1200, 40000)), spread(walks2, ctx.pick(800, 20000))
+    # chains: only "a" is funded, the others can spend only what an earlier transaction gave them; transfers of two sizes
+    # against every byte limit (a large transfer that does not fit ends the selection, whatever it would have funded)
+    gen3 = dict(gen, Values="{2, 3}", Limits="{1}", Sizes="{1, 3}", MaxTs=4, Th=3, InitBal=8, Rich='{"a"}', PoorBal=1)
+    params3 = dict(Th=3, Price=1, MinStep=1, InitBal=8, MaxPool=6, Rich=["a"], PoorBal=1)
+    walks3 = ctx.behaviours("exec", "Gen_TxPool", "Gen_TxPool.cfg", constants=dict(gen3, MaxOps=depth, Depth=depth),
+                            simulate="num=%d" % ctx.pick(40, 500), depth=depth + 1, seed=ctx.seed + 200, timeout=1500)
+    walks3 = spread(walks3, ctx.pick(800, 20000))
     cases = [dict(params=params, accounts=["a", "b", "c"], steps=b) for b in walks]
+    cases += [dict(params=params3, accounts=["a", "b", "c"], steps=b) for b in walks3]
     cases += [dict(params=params2, accounts=["a", "b"], steps=b) for b in walks2]
     sel = [len(s["sel"]) for c in cases for s in c["steps"] if s["op"] == "candidate"]
     ctx.log("cases: %d; Candidate calls %d, with >= 2 selected: %d, max selected %d"
